@@ -367,19 +367,26 @@ def extract_timer_arming(src, fn_name):
     `self.deadlines.insert(request_id, <arg>)` call: the lets are those between the start of the
     `Vacant` arm and the insert that do not touch `self` or the abort handle."""
     body = _fn_body(src, fn_name)
-    m = re.search(r"self\s*\.\s*deadlines\s*\.\s*insert\s*\(", body)
-    if not m:
-        raise Inconclusive("%s: no `self.deadlines.insert(` call found" % fn_name)
-    args, _ = _balanced_arg(body, m.end())
-    # split "request_id, <arg>" at the first top-level comma
-    depth = 0
-    for k, c in enumerate(args):
-        depth += {"(": 1, ")": -1, "[": 1, "]": -1, "{": 1, "}": -1}.get(c, 0)
-        if c == "," and depth == 0:
-            arg = args[k + 1:].strip().rstrip(",").strip()
+    # the timer queue's insert: `self.<field>.insert(request_id, <timeout>)` (two arguments, the first
+    # being the request id) - whatever the field is called
+    m, args = None, None
+    for cand in re.finditer(r"self\s*\.\s*\w+\s*\.\s*insert\s*\(", body):
+        a, _ = _balanced_arg(body, cand.end())
+        depth, parts, cur = 0, [], ""
+        for c in a:
+            depth += {"(": 1, ")": -1, "[": 1, "]": -1, "{": 1, "}": -1}.get(c, 0)
+            if c == "," and depth == 0:
+                parts.append(cur); cur = ""
+            else:
+                cur += c
+        if cur.strip():
+            parts.append(cur)
+        if len(parts) == 2 and re.fullmatch(r"\s*\*?request_id\s*", parts[0]):
+            m, args = cand, a
             break
-    else:
-        raise Inconclusive("%s: insert call without a second argument" % fn_name)
+    if not m:
+        raise Inconclusive("%s: no `self.<timers>.insert(request_id, <timeout>)` call found" % fn_name)
+    arg = parts[1].strip()
     arm = body.rfind("Vacant", 0, m.start())
     pre = body[arm:m.start()] if arm >= 0 else body[:m.start()]
     pre = pre[pre.index("{") + 1:] if "{" in pre else pre
